@@ -47,20 +47,29 @@ def collect(wt, sid, prop):
     json.dump(meta, open(f'{out}/meta.json','w'), indent=1)
     print(json.dumps(meta['verified']))
 def run(sid, check, tier='quick'):
+    """apply the seeded patch through a build overlay (so /repo itself is never touched and background runs are not disturbed), run the check"""
+    import re, tempfile
     patch=f'/verif/seeded/{sid}/patch.diff'
-    sh('git checkout -- .', cwd='/repo')
-    a=sh(f'git apply {patch}', cwd='/repo')
-    if a.returncode!=0: raise SystemExit('patch does not apply: '+a.stderr)
+    txt=open(patch).read()
+    files=re.findall(r'^\+\+\+ b/(.*)$', txt, re.M)
+    d=tempfile.mkdtemp(prefix=f'verif-seedrun-{sid}-', dir='/dev/shm')
     try:
-        outdir=f'/dev/shm/verif-seedrun-{sid}-{check}'; os.makedirs(outdir, exist_ok=True); shutil.copy('/verif/known_findings.json', outdir)
-        p=subprocess.run(['/verif/vrun',check,tier], cwd='/verif', env=dict(ENV, VERIF_OUT=outdir), capture_output=True, text=True)
+        repl={}
+        for f in files:
+            dst=os.path.join(d,'src',f); os.makedirs(os.path.dirname(dst), exist_ok=True)
+            if os.path.exists('/repo/'+f): shutil.copy('/repo/'+f, dst)
+            repl['/repo/'+f]=dst
+        a=subprocess.run(['patch','-p1','-s','-d',os.path.join(d,'src'),'-i',patch],capture_output=True,text=True)
+        if a.returncode!=0: raise SystemExit('patch does not apply: '+a.stdout+a.stderr)
+        ovl=os.path.join(d,'overlay.json'); json.dump({'Replace':repl}, open(ovl,'w'))
+        outdir=os.path.join(d,'out'); os.makedirs(outdir); shutil.copy('/verif/known_findings.json', outdir)
+        p=subprocess.run(['/verif/vrun',check,tier], cwd='/verif', env=dict(ENV, VERIF_OUT=outdir, VERIF_OVERLAY=ovl), capture_output=True, text=True)
         v=[l for l in p.stdout.split('\n') if l.startswith('VIOLATION')]
         print(f'{sid} {check} {tier}: exit={p.returncode} violations={len(v)}')
         for l in v[:3]: print('   ', l[:300])
         if not v: print('   ', p.stdout.strip().split('\n')[-1][:300], p.stderr[-300:])
-        shutil.rmtree(outdir, ignore_errors=True)
         return p.returncode==1 and len(v)>0
     finally:
-        sh('git checkout -- .', cwd='/repo')
+        shutil.rmtree(d, ignore_errors=True)
 if sys.argv[1]=='collect': collect(*sys.argv[2:5])
 elif sys.argv[1]=='run': sys.exit(0 if run(*sys.argv[2:]) else 1)
